@@ -281,6 +281,8 @@ class Program:
 
     def _scan_enums(self):
         idx = {}
+        aliases = {}
+        alias_pat = re.compile(r"\b([A-Z][A-Za-z0-9_]*)\s+as\s+([A-Z][A-Za-z0-9_]*)\b")
         pat = re.compile(r"\benum\s+([A-Za-z_][A-Za-z0-9_]*)\b[^{;]*\{")
         for root, dirs, files in os.walk(self.repo):
             dirs[:] = sorted(d for d in dirs if d not in ("target", ".git", "test", "benches", "docs", "devtools"))
@@ -292,6 +294,11 @@ class Program:
                     s = open(p).read()
                 except OSError:
                     continue
+                if " as " in s:
+                    for line in s.split("\n"):
+                        if "use " in line or line.strip().startswith("pub use") or " as " in line and line.strip().endswith(","):
+                            for am in alias_pat.finditer(line):
+                                aliases.setdefault(am.group(2), set()).add(am.group(1))
                 if "enum " not in s:
                     continue
                 for m in pat.finditer(s):
@@ -322,6 +329,7 @@ class Program:
                         vs = d
                     idx.setdefault(m.group(1), []).append((os.path.relpath(p, self.repo), vs))
         self._enum_index = idx
+        self._enum_aliases = aliases
 
     def enum_variants(self, name, vname=None, hint_file=None):
         if name in ENUMS:
@@ -329,6 +337,9 @@ class Program:
         if not hasattr(self, "_enum_index"):
             self._scan_enums()
         defs = self._enum_index.get(name, [])
+        if not defs:
+            for real in sorted(self._enum_aliases.get(name, ())):
+                defs = defs + self._enum_index.get(real, [])
         if vname is not None:
             defs = [d for d in defs if vname in d[1]]
         if not defs:
@@ -1346,6 +1357,17 @@ class Exec:
         r = B.try_builtin(self, fr, callee, args, dty)
         if r is not B.NOT_BUILTIN:
             return r
+        # blanket `impl<T, U: From<T>> Into<U> for T`
+        mi = re.match(r"^<(.+) as (?:std::|core::)?(?:convert::)?Into<(.+)>>::into$", callee)
+        if mi:
+            callee2 = f"<{mi.group(2)} as From<{mi.group(1)}>>::from"
+            r = B.try_builtin(self, fr, callee2, args, dty)
+            if r is not B.NOT_BUILTIN:
+                return r
+            fn = self.resolve(callee2, args)
+            if fn is not None:
+                return self.call_function(fn, args, fr.depth + 1)
+            raise Unsupported(f"unresolved call `{callee}`")
         fn = self.resolve(callee, args)
         if fn is None:
             raise Unsupported(f"unresolved call `{callee}`")
@@ -1375,9 +1397,13 @@ class Exec:
         trait = None
         tyname = None
         m = re.match(r"^<(.+) as (.+?)>::([A-Za-z_0-9]+)$", c)
+        trait_arg = None
         if m:
             tyname = type_head(m.group(1))
             trait = type_head(m.group(2))
+            if "<" in m.group(2):
+                ta = m.group(2)[m.group(2).index("<") + 1:m.group(2).rindex(">")]
+                trait_arg = type_head(split_top(ta)[0]) if ta else None
             name = m.group(3)
         else:
             segs = split_top(c, "::")
@@ -1407,6 +1433,22 @@ class Exec:
         c2 = cands
         if trait:
             c2 = [f for f in c2 if header_has(f, trait)]
+            # `impl Trait<Arg> for Type`: trait (and its argument) left of ` for `, the type right of it
+            def split_ok(f):
+                h = f.impl_header or ""
+                if " for " not in h:
+                    return False
+                left, right = h.split(" for ", 1)
+                if not re.search(r"\b" + re.escape(trait) + r"\b", left):
+                    return False
+                if trait_arg and not re.search(r"\b" + re.escape(trait_arg) + r"\b", left):
+                    return False
+                if tyname and not re.fullmatch(r"[A-Z]|Self", tyname) and not re.search(r"\b" + re.escape(tyname) + r"\b", right):
+                    return False
+                return True
+            c3 = [f for f in c2 if split_ok(f)]
+            if c3:
+                c2 = c3
         if tyname:
             c3 = [f for f in c2 if header_has(f, tyname) or (f.impl_span is None and ("::" + tyname + "::") in ("::" + f.name))]
             if c3:
